@@ -11,7 +11,7 @@ type R<'a> = EndianSlice<'a, LittleEndian>;
 /// What a caller can see of one entry handed back by `ConvertUnit::read_entry`.
 fn snap(e: &write::ConvertUnitEntry<'_, R<'_>>, id: Option<bool>) -> String {
     let attrs: Vec<String> = e.attrs().iter().map(|a| format!("{:#x}/{:#x}={:?}", a.name().0, a.form().0, a.raw_value())).collect();
-    format!("off={:#x} tag={:#x} children={} sibling={} parent={} reserved={:?} attrs=[{}]", e.offset().0, e.tag().0, e.has_children(), e.sibling, e.parent.is_some(), id, attrs.join(","))
+    format!("off={:#x} tag={:#x} children={} sibling={} parent={:?} reserved={:?} attrs=[{}]", e.offset().0, e.tag().0, e.has_children(), e.sibling, e.parent.map(|p| { let t = format!("{:?}", p); t[t.find("index").unwrap_or(0)..].trim_end_matches(" }").to_string() }), id, attrs.join(","))
 }
 
 /// All entries of the first unit, read into one reused buffer (`fresh == false`) or into a
@@ -47,7 +47,7 @@ pub fn subs(_tier: Tier) -> Vec<Sub> {
     let mut cfgs: Vec<(Vec<usize>, Variant)> = vec![];
     for n in 1..=5usize {
         for t in trees(n) {
-            for v in [Variant::Plain, Variant::Sibling, Variant::EmptyParents] {
+            for v in [Variant::Plain, Variant::Sibling, Variant::EmptyParents, Variant::Trailing] {
                 cfgs.push((t.clone(), v));
             }
             for k in 0..n {
@@ -59,7 +59,7 @@ pub fn subs(_tier: Tier) -> Vec<Sub> {
     vec![Sub::new(
         "convert-entry-buffer",
         n,
-        "every ordered tree with <= 5 nodes x {plain, DW_AT_sibling on inner nodes only, leaves declared with children, invalid abbreviation code at node k}: all entries of the unit read with ConvertUnit::read_entry into ONE ConvertUnitEntry (the documented conversion loop) vs into a new null entry each time; offset, tag, children flag, sibling flag, parent, reservation and attributes of every entry must agree",
+        "every ordered tree with <= 5 nodes x {plain, DW_AT_sibling on inner nodes only, leaves declared with children, invalid abbreviation code at node k, two more entries (a leaf; an entry with a child) after the null that ends the root's children}: all entries of the unit read with ConvertUnit::read_entry into ONE ConvertUnitEntry (the documented conversion loop) vs into a new null entry each time; offset, tag, children flag, sibling flag, parent, reservation and attributes of every entry must agree",
         move |ctx: &mut Ctx, i| {
             let (parent, v) = &cfgs[i as usize];
             let (info, _) = tree_unit(parent, *v);
